@@ -156,6 +156,11 @@ def build_replay(log=sys.stderr, release=False):
             t0 = time.time()
             work = os.path.join(SCRATCH, 'replaysrc')
             copy_tree(REPO, work)
+            # copy2 keeps the source files' mtimes; cargo decides by mtime whether the path dependency changed, and a tree
+            # that was built here before (e.g. a patched scratch worktree) can be *newer* than the one being built now
+            for dp, dn, fn in os.walk(os.path.join(work, 'src')):
+                for f in fn:
+                    os.utime(os.path.join(dp, f), None)
             crate = os.path.join(VERIF, 'replay')
             shutil.copy2(os.path.join(REPO, 'Cargo.lock'), os.path.join(crate, 'Cargo.lock'))
             env = cargo_env(os.path.join(CACHE, 'replay-target'))
